@@ -20,6 +20,7 @@ mod p_c06;
 mod p_c19;
 mod delivery;
 mod spec;
+mod tlscert;
 mod resp;
 mod respgen;
 mod rng;
